@@ -57,3 +57,12 @@ Theorem C07_precedence_after_failures : forall sniff parse t name data r i ps,
   inspect_in sniff parse t name data = Ok i.
 Proof. exact precedence_after_failures. Qed.
 Print Assumptions C07_precedence_after_failures.
+
+(* the reserved SSH file names (and any other name pattern of the table) apply to exact base names:
+   the name predicate of a row holds iff the path is non-empty and filepath.Base(path) EQUALS one of
+   the row's patterns - no substring, prefix or suffix matching *)
+Theorem C07_exact_basename : forall r name, In r table ->
+  matches_name r name =
+    Ok (match name with [] => false | _ => existsb (bytes_eqb (basename name)) (r_patterns r) end).
+Proof. intros r name H. exact (matches_name_exact table r name table_no_wildcards H). Qed.
+Print Assumptions C07_exact_basename.
